@@ -732,6 +732,11 @@ def _first_index(vec, better):
 
 def _gt(a, b, strict):
     a, b = (SR(a) if isinstance(a, SB) else a), (SR(b) if isinstance(b, SB) else b)
+    if isinstance(a, SC) or isinstance(b, SC):
+        a, b = SC(a), SC(b)      # NumPy: lexicographic order on (real, imag)
+        if strict:
+            return (a.re > b.re) | ((a.re == b.re) & (a.im > b.im))
+        return (a.re > b.re) | ((a.re == b.re) & (a.im >= b.im))
     return (a > b) if strict else (a >= b)
 
 
@@ -743,8 +748,8 @@ def _lt(a, b, strict):
 def _arg(a, axis, better):
     a = lift(a)
     arr = a._a
-    if a.dtype.kind == 'c':
-        raise Unsupported('argmax of complex')
+    if a.dtype.kind == 'c' and better is not _gt:
+        raise Unsupported('argmin of complex')
     if axis is None:
         return np.int64(_first_index(arr.reshape(-1), better))
     moved = np.moveaxis(arr, axis, -1)
